@@ -11,7 +11,9 @@ import (
 	"bytes"
 	"fmt"
 	"io"
+	"iter"
 	"math"
+	"slices"
 	"strconv"
 	"strings"
 
@@ -584,6 +586,124 @@ var kNwChain = register(&Kind{Name: "newick_chain", NoModel: true,
 		return ""
 	}})
 
+// newick_wide: [fanout mode] a node with `fanout` leaf children under a root that
+// has two more leaves; mode 0 = PreOrder, 1 = PostOrder. Implementation + oracle
+// only: child counters of any width must work (65,536 children and more).
+var kNwWide = register(&Kind{Name: "newick_wide", NoModel: true,
+	Impl: func(in Val) Val {
+		fan, mode := in.At(0).Int(), in.At(1).Int()
+		hub := &newick.Node{Name: "hub"}
+		for i := 0; i < fan; i++ {
+			hub.Children = append(hub.Children, &newick.Node{})
+		}
+		first, last := &newick.Node{Name: "first"}, &newick.Node{Name: "last"}
+		root := &newick.Node{Name: "root", Children: []*newick.Node{first, hub, last}}
+		var want []*newick.Node
+		if mode == 0 {
+			want = append(append([]*newick.Node{root, first, hub}, hub.Children...), last)
+		} else {
+			want = append(append([]*newick.Node{first}, hub.Children...), hub, last, root)
+		}
+		it := root.PreOrder()
+		if mode == 1 {
+			it = root.PostOrder()
+		}
+		count, ok := 0, true
+		for n := range it {
+			if count >= len(want) || want[count] != n {
+				ok = false
+				break
+			}
+			count++
+		}
+		return vOk(L(I(count), Bool(ok && count == len(want)), Bool(len(hub.Children) == fan && len(root.Children) == 3)))
+	},
+	Oracle: func(in, out Val) string {
+		want := vOk(L(I(in.At(0).Int()+4), Bool(true), Bool(true)))
+		if out.String() != want.String() {
+			return fmt.Sprintf("node with %d children, mode %d: got %s, want %s (count, order ok, intact)", in.At(0).Int(), in.At(1).Int(), out.String(), want.String())
+		}
+		return ""
+	}})
+
+// newick_reentrant: [tree mode] the same iter.Seq value is iterated again while an
+// iteration of it is in progress (nested loops; two iter.Pull cursors in lockstep).
+// Every run must yield the full classic order. Implementation + oracle only.
+var kNwReentrant = register(&Kind{Name: "newick_reentrant", NoModel: true,
+	Impl: func(in Val) Val {
+		g := valTree(in.At(0))
+		pre := in.At(1).Int() == 0
+		paths := map[*newick.Node][]int{}
+		root := buildWithPaths(g, nil, paths)
+		seq := root.PostOrder()
+		if pre {
+			seq = root.PreOrder()
+		}
+		var ref [][]int
+		refOrder(g, pre, nil, &ref)
+		same := func(got []*newick.Node) bool {
+			if len(got) != len(ref) {
+				return false
+			}
+			for i, n := range got {
+				if !slices.Equal(paths[n], ref[i]) {
+					return false
+				}
+			}
+			return true
+		}
+		// nested: for every item of the outer run, a complete inner run
+		var outer []*newick.Node
+		for n := range seq {
+			outer = append(outer, n)
+			var inner []*newick.Node
+			for m := range seq {
+				inner = append(inner, m)
+				if len(inner) > len(ref)+3 {
+					break
+				}
+			}
+			if !same(inner) {
+				return L(I(3), S("an iteration started while another iteration of the same Seq is running yields a wrong order"))
+			}
+			if len(outer) > len(ref)+3 {
+				break
+			}
+		}
+		if !same(outer) {
+			return L(I(3), S("an iteration is disturbed by iterations of the same Seq started inside its loop body"))
+		}
+		// two pull cursors in lockstep
+		next1, stop1 := iter.Pull(seq)
+		next2, stop2 := iter.Pull(seq)
+		defer stop1()
+		defer stop2()
+		var a, b []*newick.Node
+		for i := 0; i < len(ref)+3; i++ {
+			x, ok1 := next1()
+			y, ok2 := next2()
+			if ok1 {
+				a = append(a, x)
+			}
+			if ok2 {
+				b = append(b, y)
+			}
+			if !ok1 && !ok2 {
+				break
+			}
+		}
+		if !same(a) || !same(b) {
+			return L(I(3), S("two cursors over the same Seq disturb each other"))
+		}
+		return vOk(I(len(ref)))
+	},
+	Oracle: func(in, out Val) string {
+		if !isOk(out) {
+			return "re-entrant traversal: " + clip(out.String())
+		}
+		return ""
+	}})
+
 // ---- generators -------------------------------------------------------------
 
 var shapeMemo = map[int][]*gTree{}
@@ -950,7 +1070,24 @@ func init() {
 			}
 			run(h, "spine-with-leaves")
 		}
-		deep := c.Pick(100000, 1000000)
+		// wide nodes: 255..70,000 children
+		for _, fan := range []int{0, 1, 255, 256, 257, 65535, 65536, 65537, 70000} {
+			c.Run(kNwWide, L(I(fan), I(0)), true, "wide/pre")
+			c.Run(kNwWide, L(I(fan), I(1)), true, "wide/post")
+		}
+		// the same Seq iterated re-entrantly
+		for n := 1; n <= 5; n++ {
+			for _, sh := range allShapes(n) {
+				c.Run(kNwReentrant, L(treeVal(sh), I(0)), n >= 2, "reentrant/pre")
+				c.Run(kNwReentrant, L(treeVal(sh), I(1)), n >= 2, "reentrant/post")
+			}
+		}
+		for i := 0; i < 20; i++ {
+			g := c.randomShape(5+c.Intn(40), c.Intn(5))
+			c.Run(kNwReentrant, L(treeVal(g), I(i%2)), true, "reentrant/random")
+		}
+		// deeper than 2^20 (an arbitrary depth guard would sit at a power of two)
+		deep := c.Pick(1100000, 3000000)
 		c.Run(kNwChain, L(I(deep), I(0)), true, fmt.Sprintf("chain/pre-depth-%d", deep))
 		c.Run(kNwChain, L(I(deep), I(1)), true, fmt.Sprintf("chain/post-depth-%d", deep))
 		c.Run(kNwChain, L(I(1), I(0)), true, "chain/depth-1")
